@@ -136,13 +136,24 @@ pub fn parse_list(s: &str) -> Vec<u64> {
 
 /// Runs `f`, turning a panic into `Err(message)`. The default panic hook is silenced while it runs.
 pub fn catch<R>(f: impl FnOnce() -> R) -> Result<R, String> {
+    thread_local! { static LOC: std::cell::RefCell<String> = const { std::cell::RefCell::new(String::new()) }; }
     let prev = std::panic::take_hook();
-    std::panic::set_hook(Box::new(|_| {}));
+    std::panic::set_hook(Box::new(|info| {
+        let loc = info.location().map(|l| format!("{}:{}", l.file(), l.line())).unwrap_or_default();
+        LOC.with(|c| {
+            // keep the first location (a resumed panic reports the resume site)
+            let mut c = c.borrow_mut();
+            if c.is_empty() { *c = loc; }
+        });
+    }));
+    LOC.with(|c| c.borrow_mut().clear());
     let r = std::panic::catch_unwind(std::panic::AssertUnwindSafe(f));
     std::panic::set_hook(prev);
     r.map_err(|e| {
-        if let Some(s) = e.downcast_ref::<&str>() { s.to_string() }
+        let msg = if let Some(s) = e.downcast_ref::<&str>() { s.to_string() }
         else if let Some(s) = e.downcast_ref::<String>() { s.clone() }
-        else { "panic".to_string() }
+        else { "panic".to_string() };
+        let loc = LOC.with(|c| c.borrow().clone());
+        format!("[{}] {}", loc.rsplit("crates/").next().unwrap_or(&loc), msg)
     })
 }
